@@ -10,7 +10,7 @@ LEVEL_TEXT = ("Per run: the positions returned by vpsc::IncSolver::solve, vpsc::
               "equals it), KKT sufficiency (exact and epsilon-relaxed), uniqueness, order independence, translation equivariance, "
               "optimality of the block position formula. Model side (Props/C02Model.lean, about the Rat model of IncSolver "
               "that C01 ties to the code): in every state satisfying C01's block invariant with blocks at their stationary "
-              "position, the tree multipliers satisfy stationarity, and a quiescent state (all constraints hold, no active "
+              "position, the tree multipliers satisfy stationarity and are exactly what the model's compute_dfdv recursion assigns (dfdv_is_multiplier; posn=(AD-AB)/A2 is the block's own stationarity), and a quiescent state (all constraints hold, no active "
               "inequality with multiplier < -eps) satisfies KKT/KKTeps, hence is the optimum resp. within the eps bound "
               "(quiescent_is_optimum, quiescent_is_eps_optimum); 'solve returns => optimum' is false and the premature-stop "
               "witness is re-evaluated at every build.")
